@@ -1,6 +1,240 @@
 package rules
 
-import "verif/checker/core"
+import (
+	"fmt"
+	"go/token"
+	"os"
+	"path/filepath"
+	"sort"
+	"strings"
+	"sync"
 
-// SelfTest (thorough tier) re-analyses overlay mutants; filled in later.
-func SelfTest(r *core.Run, cfg core.LoadConfig) {}
+	"verif/checker/core"
+)
+
+// A selfMutant is a single textual edit of one repository file that keeps the
+// program compiling and must make the named rule report a violation. Mutants
+// are applied through packages.Config.Overlay: nothing on disk is touched.
+type selfMutant struct {
+	Rule  string
+	File  string // path relative to the repository
+	Old   string
+	New   string
+	Only  string   // engine package filter (speeds up engine rules)
+	Props []string // when set: the properties whose view contains the mutated package
+	Why   string
+}
+
+var selfMutants = []selfMutant{
+	// tables
+	{Rule: "T-KEYWORDS", File: "js/table.go", Old: `"yield":      YieldToken,`, New: `"yield":      VarToken,`, Why: "keyword mapped to the wrong type"},
+	{Rule: "T-OPERATORS", File: "js/lex.go", Old: "'^': BitXorEqToken,", New: "'^': BitOrEqToken,", Why: "operator table entry swapped"},
+	{Rule: "T-IDTABLES", File: "js/lex.go", Old: "	false, false, false, false, true, false, false, false, // $\n	false, false, false, false, false, false, false, false,\n	false, false, false, false, false, false, false, false,\n	false, false, false, false, false, false, false, false,\n\n	false, true, true, true, true, true, true, true, // A, B, C, D, E, F, G\n	true, true, true, true, true, true, true, true, // H, I, J, K, L, M, N, O\n	true, true, true, true, true, true, true, true, // P, Q, R, S, T, U, V, W\n	true, true, true, false, false, false, false, true, // X, Y, Z, _\n\n	false, true, true, true, true, true, true, true, // a, b, c, d, e, f, g\n	true, true, true, true, true, true, true, true, // h, i, j, k, l, m, n, o\n	true, true, true, true, true, true, true, true, // p, q, r, s, t, u, v, w\n	true, true, true, false, false, false, false, false, // x, y, z\n\n	// non-ASCII\n	false, false, false, false, false, false, false, false,\n	false, false, false, false, false, false, false, false,\n	false, false, false, false, false, false, false, false,\n	false, false, false, false, false, false, false, false,\n\n	false, false, false, false, false, false, false, false,\n	false, false, false, false, false, false, false, false,\n	false, false, false, false, false, false, false, false,\n	false, false, false, false, false, false, false, false,\n\n	false, false, false, false, false, false, false, false,\n	false, false, false, false, false, false, false, false,\n	false, false, false, false, false, false, false, false,\n	false, false, false, false, false, false, false, false,\n\n	false, false, false, false, false, false, false, false,\n	false, false, false, false, false, false, false, false,\n	false, false, false, false, false, false, false, false,\n	false, false, false, false, false, false, false, false,\n}\n\nvar identifierTable", New: "	false, false, false, false, true, false, false, false, // $\n	false, false, false, false, false, false, false, false,\n	false, false, false, false, false, false, false, false,\n	false, false, false, false, false, false, false, false,\n\n	false, true, true, true, true, true, true, true, // A, B, C, D, E, F, G\n	true, true, true, true, true, true, true, true, // H, I, J, K, L, M, N, O\n	true, true, true, true, true, true, true, true, // P, Q, R, S, T, U, V, W\n	true, true, true, false, false, false, false, false, // X, Y, Z, _\n\n	false, true, true, true, true, true, true, true, // a, b, c, d, e, f, g\n	true, true, true, true, true, true, true, true, // h, i, j, k, l, m, n, o\n	true, true, true, true, true, true, true, true, // p, q, r, s, t, u, v, w\n	true, true, true, false, false, false, false, false, // x, y, z\n\n	// non-ASCII\n	false, false, false, false, false, false, false, false,\n	false, false, false, false, false, false, false, false,\n	false, false, false, false, false, false, false, false,\n	false, false, false, false, false, false, false, false,\n\n	false, false, false, false, false, false, false, false,\n	false, false, false, false, false, false, false, false,\n	false, false, false, false, false, false, false, false,\n	false, false, false, false, false, false, false, false,\n\n	false, false, false, false, false, false, false, false,\n	false, false, false, false, false, false, false, false,\n	false, false, false, false, false, false, false, false,\n	false, false, false, false, false, false, false, false,\n\n	false, false, false, false, false, false, false, false,\n	false, false, false, false, false, false, false, false,\n	false, false, false, false, false, false, false, false,\n	false, false, false, false, false, false, false, false,\n}\n\nvar identifierTable", Why: "'_' dropped from identifierStartTable"},
+	{Rule: "T-LENUINT", File: "strconv/int.go", Old: "	case i < 10000000:\n		return 7", New: "	case i < 10000000:\n		return 8", Why: "digit-count rung off by one"},
+	{Rule: "T-POW10", File: "strconv/float.go", Old: "1e10, 1e11, 1e12,", New: "1e10, 1e11, 1e13,", Why: "power-of-ten table entry wrong"},
+	{Rule: "T-HASH", File: "html/hash.go", Old: "Script    Hash = 0xa06  // script", New: "Script    Hash = 0xa05  // script", Why: "hash constant length corrupted", Props: []string{"C16", "C09"}},
+	{Rule: "T-HASH", File: "css/hash.go", Old: "	0x2: 0x2605, // media", New: "	0x2: 0x2606, // media", Why: "hash table slot corrupted", Props: []string{"C16", "C08"}},
+	{Rule: "T-TABLES", File: "util.go", Old: "	false, true, true, false, true, true, false, false, // tab, new line, form feed, carriage return\n	false, false, false, false, false, false, false, false,\n	false, false, false, false, false, false, false, false,\n\n	true, false,", New: "	false, true, true, true, true, true, false, false, // tab, new line, form feed, carriage return\n	false, false, false, false, false, false, false, false,\n	false, false, false, false, false, false, false, false,\n\n	true, false,", Why: "vertical tab added to whitespaceTable"},
+	{Rule: "T-ESCLEN", File: "xml/util.go", Old: "n += 3 // &lt;", New: "n += 2 // &lt;", Why: "size increment smaller than the entity"},
+	// structural
+	{Rule: "R-WALK", File: "js/walk.go", Old: "		Walk(v, n.Body)\n		Walk(v, n.Else)\n		Walk(v, n.Cond)", New: "		Walk(v, n.Body)\n		Walk(v, n.Cond)", Why: "IfStmt.Else no longer walked"},
+	{Rule: "R-WALK", File: "js/walk.go", Old: "	case *GroupExpr:\n		Walk(v, n.X)\n", New: "", Why: "arm for *GroupExpr removed"},
+	{Rule: "R-WALKORDER", File: "js/walk.go", Old: "	defer v.Exit(n)\n", New: "	v.Exit(n)\n", Why: "Exit no longer deferred"},
+	{Rule: "R-SEEK", File: "binary.go", Old: "if r.pos+off < 0 || r.f.Len() < r.pos+off {", New: "if r.pos+off < 0 {", Why: "upper bound of SeekCurrent dropped"},
+	{Rule: "R-EOFSTRICT", File: "binary.go", Old: "} else if int64(len(r.data))-off < n {", New: "} else if int64(len(r.data))-off <= n {", Why: "exact-fit read reports EOF"},
+	{Rule: "R-BITIDX", File: "binary.go", Old: "uint32(len(r.buf)) <= r.pos/8", New: "uint32(len(r.buf)) <= (r.pos+1)/8", Why: "last bit unreachable"},
+	{Rule: "R-LAYOUT", File: "binary.go", Old: "return uint16(data[1])<<8 | uint16(data[0])", New: "return uint16(data[0])<<8 | uint16(data[1])", Why: "little-endian read uses big-endian layout"},
+	{Rule: "R-READPOS", File: "binary.go", Old: "	data, err := r.f.Bytes(b, int64(len(b)), off)\n	return len(data), err", New: "	data, err := r.f.Bytes(b, int64(len(b)), off)\n	r.pos = off + int64(len(data))\n	return len(data), err", Why: "ReadAt moves the position"},
+	{Rule: "R-SEEKREAD", File: "binary.go", Old: "	if _, err := r.r.Seek(off, 0); err != nil {\n		r.mu.Unlock()\n		return nil, err\n	}\n", New: "", Why: "read without seeking"},
+	{Rule: "R-INPUT", File: "input.go", Old: "return z.buf[z.start:z.pos:z.pos]\n}", New: "return z.buf[z.start:z.pos]\n}", Why: "Lexeme no longer capped"},
+	{Rule: "R-PEEKRUNE", File: "input.go", Old: "} else if c < 0xE0 || len(z.buf)-1-z.pos-pos < 3 {", New: "} else if c < 0xE0 || len(z.buf)-1-z.pos < 3 {", Why: "guard ignores the position argument"},
+	{Rule: "R-BORROW", File: "input.go", Old: "		if cap(b) > n {", New: "		if cap(b) >= n {", Why: "terminator written without spare capacity check"},
+	{Rule: "R-CTORERR", File: "input.go", Old: "				return &Input{\n					buf: nullBuffer,\n					err: err,\n				}", New: "				z := NewInputBytes(b)\n				z.err = err\n				return z", Why: "partial data kept on reader failure"},
+	{Rule: "R-REBASE", File: "buffer/streamlexer.go", Old: "	z.prevStart -= z.start\n", New: "", Why: "prevStart not re-based"},
+	{Rule: "R-STREAMERR", File: "buffer/streamlexer.go", Old: "if z.err == io.EOF && z.pos < len(z.buf) {", New: "if z.err == io.EOF && z.pos <= len(z.buf) {", Why: "EOF hidden at the end"},
+	{Rule: "R-POOLREUSE", File: "buffer/streamlexer.go", Old: "if z.tail == 0 && z.pos >= len(oldBuf) && size <= cap(oldBuf) {", New: "if z.tail == 0 && size <= cap(oldBuf) {", Why: "buffer reused while bytes are unfreed"},
+	{Rule: "R-STREAMBUF", File: "buffer/streamlexer.go", Old: "buf := z.pool.swap(z.buf[:z.start], c)", New: "buf := z.pool.swap(z.buf, c)", Why: "whole buffer retired"},
+	// call graph / globals / errors
+	{Rule: "R-RECURSE", File: "js/parse.go", Old: "	// binding patterns nest recursively, count them as nested expressions\n	p.exprLevel++\n	if NestedExprLimit < p.exprLevel {\n		p.failMessage(\"too many nested expressions\")\n		return nil\n	}\n	binding = p.parseBindingPattern(decl)\n	p.exprLevel--\n	return binding", New: "	binding = p.parseBindingPattern(decl)\n	return binding", Why: "depth guard of binding patterns removed"},
+	{Rule: "R-ITERDEEP", File: "js/parse.go", Old: "		if 1000 < p.exprLevel+i {\n			p.failMessage(\"too many nested expressions\")\n			return nil\n		}\n", New: "", Why: "iteration counter check removed"},
+	{Rule: "R-GLOBALS", File: "html/util.go", Old: "	if n > cap(*buf) {\n		*buf = make([]byte, 0, n) // maximum size, not actual size\n	}\n	t := (*buf)[:n] // maximum size, not actual size\n	t[0] = quote", New: "	if n > cap(doubleQuoteEntityBytes) {\n		doubleQuoteEntityBytes = make([]byte, 0, n)\n	}\n	t := doubleQuoteEntityBytes[:n]\n	t[0] = quote", Why: "package-level slice used as scratch buffer"},
+	{Rule: "R-NOSHARE", File: "css/parse.go", Old: "		state: make([]State, 0, 4),", New: "		state: sharedStates[:0],", Why: "constructor captures package-level memory (variable added below)"},
+	{Rule: "R-ERRCTOR", File: "error.go", Old: "	offset := l.Offset()\n", New: "	offset := l.Offset() - l.Pos()\n", Why: "lexer errors report the token start instead of the cursor"},
+	{Rule: "R-REUSE", File: "css/util.go", Old: "	l.consumeIdentToken()\n", New: "	l.consumeIdentlike()\n", Why: "IsIdent uses another scanner"},
+	// path rules
+	{Rule: "R-LEVEL", File: "js/parse.go", Old: "		left = p.scope.Use(p.data)\n		p.next()\n		suffix := p.parseExpressionSuffix(left, prec, precLeft)\n		p.exprLevel--\n		return suffix", New: "		left = p.scope.Use(p.data)\n		p.next()\n		return p.parseExpressionSuffix(left, prec, precLeft)", Why: "decrement dropped on the identifier fast path"},
+	{Rule: "R-SCOPE", File: "js/parse.go", Old: "	parent := p.enterScope(&blockStmt.Scope, false)\n	blockStmt.List = p.parseStmtList(in)\n	p.exitScope(parent)", New: "	parent := p.enterScope(&blockStmt.Scope, false)\n	blockStmt.List = p.parseStmtList(in)\n	if len(blockStmt.List) != 0 {\n		p.exitScope(parent)\n	}", Why: "scope left open for empty blocks"},
+	{Rule: "R-CTX", File: "js/parse.go", Old: "		prevIn := p.in\n		p.in = true\n		left = p.parseClassExpr()\n		p.in = prevIn", New: "		prevIn := p.in\n		p.in = true\n		left = p.parseClassExpr()\n		if left != nil {\n			p.in = prevIn\n		}", Why: "in flag restored only on one branch"},
+	{Rule: "R-DECLCHK", File: "js/parse.go", Old: "			funcDecl.Name, ok = p.scope.Declare(FunctionDecl, p.data)\n			if !ok {", New: "			funcDecl.Name, ok = p.scope.Declare(FunctionDecl, p.data)\n			if !ok && false {", Why: "redeclaration error suppressed"},
+	{Rule: "R-ERRTREE", File: "js/parse.go", Old: "	if p.err != nil {\n		offset := p.l.r.Offset() - len(p.data)", New: "	if p.err != nil && len(ast.List) == 0 {\n		offset := p.l.r.Offset() - len(p.data)", Why: "partial tree returned despite an error"},
+	{Rule: "R-MARK", File: "js/parse.go", Old: "			if p.consume(in, CloseParenToken) {\n				p.scope.MarkFuncArgs()\n			}\n			return", New: "			p.consume(in, CloseParenToken)\n			return", Why: "MarkFuncArgs skipped after a rest parameter"},
+	{Rule: "R-PREC", File: "js/parse.go", Old: "			left = &BinaryExpr{tt, left, p.parseExpression(OpMul)}\n			precLeft = OpAdd", New: "			left = &BinaryExpr{tt, left, p.parseExpression(OpAdd)}\n			precLeft = OpAdd", Why: "a-b-c groups to the right"},
+	{Rule: "R-ASSERT", File: "js/ast.go", Old: "} else if ok && n.Op == NotToken && lit.TokenType == IntegerToken", New: "} else if n.Op == NotToken && lit.TokenType == IntegerToken", Why: "ok no longer checked"},
+	{Rule: "R-NILFIELD", File: "js/ast.go", Old: "	if n.Cond != nil {\n		n.Cond.JS(w)\n	}\n	w.Write([]byte(\"; \"))", New: "	n.Cond.JS(w)\n	w.Write([]byte(\"; \"))", Why: "optional ForStmt.Cond used without nil test"},
+	{Rule: "R-INDENT", File: "js/ast.go", Old: "func (n LiteralExpr) JS(w io.Writer) {\n	if wi, ok := w.(parse.Indenter); ok {\n		w = wi.Writer\n	}\n	w.Write(n.Data)", New: "func (n LiteralExpr) JS(w io.Writer) {\n	w.Write(n.Data)", Why: "literal written through the Indenter"},
+	{Rule: "R-STACK", File: "css/parse.go", Old: "				if 1 < len(p.state) {\n					p.state = p.state[:len(p.state)-1]\n				}\n				p.err, p.errPos = \"unexpected ending in at rule\", p.l.r.Offset()", New: "				p.state = p.state[:len(p.state)-1]\n				p.err, p.errPos = \"unexpected ending in at rule\", p.l.r.Offset()", Why: "unguarded pop outside a state function", Props: []string{"C08", "C01"}},
+	{Rule: "R-STACK", File: "json/parse.go", Old: "			if state != ObjectKeyState {\n				p.err = parse.NewErrorLexer(p.r, \"unexpected right brace character\")\n				return ErrorGrammar, nil\n			}\n", New: "", Why: "closing brace pops without checking the container kind", Props: []string{"C10", "C01"}},
+	{Rule: "R-BEGINEND", File: "css/parse.go", Old: "		p.state = p.state[:len(p.state)-1]\n		p.keepWS = false\n		return EndAtRuleGrammar", New: "		p.state = p.state[:len(p.state)-1]\n		p.keepWS = false\n		return EndRulesetGrammar", Why: "wrong End unit after pop"},
+	{Rule: "R-EOFNEST", File: "css/parse.go", Only: "cssparser", Old: "		if tt, data := p.popToken(false); tt != ErrorToken {\n			p.tt = tt\n			p.data = append(p.data, data...)\n		}", New: "		tt, data := p.popToken(false)\n		p.tt = tt\n		p.data = append(p.data, data...)", Why: "end of input merged into the '*' hack"},
+	// engine rules
+	{Rule: "R-CURSOR", File: "css/lex.go", Only: "css", Old: "		if c == 0 && l.r.Err() != nil {\n			break\n		} else if c == '\\n' || c == '\\r' || c == '\\f' {", New: "		if c == '\\n' || c == '\\r' || c == '\\f' {", Why: "string scanner no longer stops at the end of input"},
+	{Rule: "R-CURSOR", File: "html/lex.go", Only: "html", Old: "			l.text = l.r.Lexeme()[2:]\n			l.r.Move(1)\n			return l.r.Shift()", New: "			l.text = l.r.Lexeme()[3:]\n			l.r.Move(1)\n			return l.r.Shift()", Why: "comment text sliced beyond a 2-byte token"},
+	{Rule: "R-PROGRESS", File: "xml/lex.go", Only: "xml", Old: "		} else if c == 0 {\n			return l.r.Shift()\n		}\n		l.r.Move(1)\n	}\n}\n\nfunc (l *Lexer) shiftStartTag", New: "		} else if c == 0 {\n			return l.r.Shift()\n		} else if c == '-' {\n			continue\n		}\n		l.r.Move(1)\n	}\n}\n\nfunc (l *Lexer) shiftStartTag", Why: "comment scanner loops without moving"},
+	{Rule: "R-EOF", File: "json/parse.go", Only: "json", Old: "			} else if c == 0 { // EOF\n				return ErrorGrammar, nil", New: "			} else if c == 0 { // EOF\n				return WhitespaceGrammar, nil", Why: "end of input not reported"},
+	{Rule: "R-ERRMOVE", File: "js/lex.go", Only: "js", Old: "			l.err = parse.NewErrorLexer(l.r, \"invalid number\")\n", New: "", Why: "error token after consuming input without recording an error"},
+	{Rule: "R-ERRSTUCK", File: "js/lex.go", Only: "js", Old: "	l.r.MoveRune() // allow to continue after error\n", New: "", Why: "error path no longer consumes the offending rune"},
+	{Rule: "R-TILE", File: "css/lex.go", Only: "css", Old: "	case ':':\n		l.r.Move(1)", New: "	case ':':\n		l.r.Skip()\n		l.r.Move(1)", Why: "css lexer skips bytes"},
+	{Rule: "R-SPELL", File: "css/lex.go", Only: "css", Old: "		case '^':\n			l.r.Move(2)\n			return PrefixMatchToken", New: "		case '^':\n			l.r.Move(2)\n			return SuffixMatchToken", Why: "'^=' returned as SuffixMatch"},
+	{Rule: "R-TAGSTATE", File: "xml/lex.go", Only: "xml", Old: "		l.r.Skip()\n		l.inTag = false\n", New: "		l.r.Skip()\n", Why: "closing token leaves inTag set"},
+	{Rule: "R-INPLACE", File: "html/lex.go", Only: "html", Old: "if h := ToHash(parse.ToLower(parse.Copy(l.r.Lexeme()[mark:]))); h == Script {", New: "if h := ToHash(parse.ToLower(l.r.Lexeme()[mark:])); h == Script {", Why: "input lower-cased in place"},
+	{Rule: "R-RESTORE", File: "js/lex.go", Only: "js", Old: "		} else if !l.consumeHexDigit() || !l.consumeHexDigit() || !l.consumeHexDigit() || !l.consumeHexDigit() {\n		l.r.Rewind(mark)\n		return false", New: "		} else if !l.consumeHexDigit() || !l.consumeHexDigit() || !l.consumeHexDigit() || !l.consumeHexDigit() {\n		return false", Why: "failed escape scan not rewound"},
+}
+
+// extra declarations some mutants need (appended to the mutated file)
+var selfMutantAppend = map[string]string{
+	"constructor captures package-level memory (variable added below)": "\nvar sharedStates = make([]State, 0, 4)\n",
+}
+
+// engineOnly restricts the cursor engine to one package while self-tests run.
+var engineOnly = struct {
+	sync.Mutex
+	byProg map[*core.Program]string
+}{byProg: map[*core.Program]string{}}
+
+func engineFilter(p *core.Program) string {
+	engineOnly.Lock()
+	defer engineOnly.Unlock()
+	if s, ok := engineOnly.byProg[p]; ok {
+		return s
+	}
+	return os.Getenv("PCHECK_ONLY")
+}
+
+// SelfTest (thorough tier): every rule serving the property must fire on its seeded
+// single-edit variants. A variant whose source pattern no longer exists is reported
+// as stale (note), a variant that does not fire makes the check broken (exit 2).
+func SelfTest(r *core.Run, cfg core.LoadConfig) {
+	serving := map[string]bool{}
+	for _, rl := range For(r.Prop) {
+		serving[rl.ID] = true
+	}
+	var todo []selfMutant
+	visible := map[string][]string{"css": {"C01", "C02", "C07"}, "html": {"C01", "C02", "C09"}, "xml": {"C01", "C02", "C11"}, "json": {"C01", "C10"}, "js": {"C01", "C02", "C06"}, "cssparser": {"C08"}}
+	for _, m := range selfMutants {
+		if !serving[m.Rule] {
+			continue
+		}
+		if len(m.Props) > 0 {
+			ok := false
+			for _, p := range m.Props {
+				if p == r.Prop {
+					ok = true
+				}
+			}
+			if !ok {
+				continue
+			}
+		}
+		if m.Only != "" {
+			ok := false
+			for _, p := range visible[m.Only] {
+				if p == r.Prop {
+					ok = true
+				}
+			}
+			if !ok {
+				continue // the engine obligations of that package are not part of this property's view
+			}
+		}
+		todo = append(todo, m)
+	}
+	sort.SliceStable(todo, func(i, j int) bool { return (int64(i)*2654435761+r.Seed)%7 < (int64(j)*2654435761+r.Seed)%7 })
+	type res struct {
+		m     selfMutant
+		fired bool
+		stale bool
+		err   string
+		det   string
+	}
+	results := make([]res, len(todo))
+	sem := make(chan struct{}, 4)
+	var wg sync.WaitGroup
+	for i, m := range todo {
+		wg.Add(1)
+		sem <- struct{}{}
+		go func(i int, m selfMutant) {
+			defer wg.Done()
+			defer func() { <-sem }()
+			defer func() {
+				if x := recover(); x != nil {
+					results[i] = res{m: m, err: fmt.Sprint("panic: ", x)}
+				}
+			}()
+			path := filepath.Join(cfg.Dir, m.File)
+			src, err := os.ReadFile(path)
+			if err != nil {
+				results[i] = res{m: m, stale: true, err: err.Error()}
+				return
+			}
+			if strings.Count(string(src), m.Old) != 1 {
+				results[i] = res{m: m, stale: true, err: "pattern not found exactly once"}
+				return
+			}
+			mut := strings.Replace(string(src), m.Old, m.New, 1) + selfMutantAppend[m.Why]
+			c2 := cfg
+			c2.Overlay = map[string][]byte{path: []byte(mut)}
+			prog, err := core.Load(c2)
+			if err != nil {
+				results[i] = res{m: m, err: "variant does not load: " + err.Error()}
+				return
+			}
+			if m.Only != "" {
+				engineOnly.Lock()
+				engineOnly.byProg[prog] = m.Only
+				engineOnly.Unlock()
+			}
+			sub := core.NewRun(r.Prop, r.Tier, r.Seed, prog)
+			for _, rl := range For(r.Prop) {
+				if rl.ID == m.Rule {
+					sub.SetRule(rl.ID)
+					rl.Run(sub)
+				}
+			}
+			out := res{m: m}
+			for _, o := range sub.Obs {
+				if o.Rule == m.Rule && (o.Status == core.Violated || o.Status == core.Undecided) && !strings.HasPrefix(o.Key, "VACUOUS") {
+					out.fired = true
+					out.det = o.Key
+					break
+				}
+			}
+			engineOnly.Lock()
+			delete(engineOnly.byProg, prog)
+			engineOnly.Unlock()
+			engCacheMu.Lock()
+			delete(engCache, prog)
+			engCacheMu.Unlock()
+			results[i] = out
+		}(i, m)
+	}
+	wg.Wait()
+	fired, stale := 0, 0
+	for _, x := range results {
+		switch {
+		case x.stale:
+			stale++
+			r.Note("self-test variant for %s is stale (%s): %s", x.m.Rule, x.m.Why, x.err)
+		case x.err != "":
+			r.Broken = append(r.Broken, fmt.Sprintf("self-test variant for %s (%s): %s", x.m.Rule, x.m.Why, x.err))
+		case !x.fired:
+			r.Broken = append(r.Broken, fmt.Sprintf("rule not armed: %s did not report the seeded variant in %s (%s)", x.m.Rule, x.m.File, x.m.Why))
+		default:
+			fired++
+			r.SetRule(x.m.Rule)
+			r.OK(fmt.Sprintf("self-test: %s fires on variant %q", x.m.Rule, x.m.Why), token.NoPos, "reported: "+x.det)
+		}
+	}
+	r.Count("self-test variants run (overlay, nothing written to disk)", len(todo))
+	r.Count("self-test variants that fired", fired)
+	r.Count("self-test variants stale", stale)
+}
